@@ -657,8 +657,13 @@ class VizierServicer(vizier_service_pb2_grpc.VizierServiceServicer):
       )
       grpc_util.handle_exception(e, context)
 
-    with self._study_name_to_lock[study_name]:
-      self.datastore.delete_trial(request.name)
+    # A trial must not vanish in the middle of a SuggestTrials call of its
+    # study (which holds the operation lock throughout): that call would hand
+    # out the deleted trial it listed earlier and give the freed id to the
+    # next trial it creates.
+    with self._operation_lock[study_name]:
+      with self._study_name_to_lock[study_name]:
+        self.datastore.delete_trial(request.name)
     return empty_pb2.Empty()
 
   # TODO: This currently uses the same algorithm as suggestion.
